@@ -128,7 +128,10 @@ def linearizable(ops, spec_init, spec_step):
             for b in range(a + 1, n):
                 x, y = perm[a], perm[b]          # x placed before y: y must not precede x in real time
                 if ops[x]["thread"] != ops[y]["thread"]:
-                    conds.append(z3.Not(z3.ULT(ops[y]["last"], ops[x]["first"])))
+                    c = z3.Not(z3.ULT(ops[y]["last"], ops[x]["first"]))
+                    if "present" in ops[x] or "present" in ops[y]:      # calls without any visible step impose no real-time order
+                        c = z3.Or(c, z3.Not(ops[x].get("present", z3.BoolVal(True))), z3.Not(ops[y].get("present", z3.BoolVal(True))))
+                    conds.append(c)
         st = spec_init
         for i in perm:
             ok, st = spec_step(st, ops[i])
@@ -360,6 +363,13 @@ def fifo_query(ctx, name, kind, N, k, threads, oracle, slack, timeout_s, drain=T
         res[t] = b.results(t, lambda j, v, exs=exs: exs[j](v))
     sends = [(t, j, v) for (t, j, op, v, ex) in plan if op == "send"]
     recvs = [(t, j) for (t, j, op, v, ex) in plan if op in ("recv", "drain")]
+    # symmetry breaking: threads with identical programs are interchangeable (their payloads are symmetric symbols too) --
+    # only schedules in which they take their FIRST step in thread order are explored
+    for ta in range(len(threads)):
+        for tb in range(ta + 1, len(threads)):
+            if threads[ta] == threads[tb]:
+                fa = b.call_times(ta)[0][0]; fb = b.call_times(tb)[0][0]
+                distinct.append(z3.ULE(fa, fb))
     base = distinct + [b.all_done()]
     meta = {"threads": ["%d:%s" % (i, "+".join(p)) for i, p in enumerate(threads)] + (["drain x%d (runs after all)" % N] if drain else []),
             "bounds": "%s, BUFFER_SIZE=%d, pre-filled %d, origin any u32, steps<=%d, payloads distinct symbolic u32" % (kind, N, k, S), "oracle": oracle}
@@ -435,3 +445,372 @@ def fifo_query(ctx, name, kind, N, k, threads, oracle, slack, timeout_s, drain=T
         else:
             rec.update(verdict="inconclusive", why="model counterexample did not reproduce natively: " + why)
     return rec
+
+
+# =========================================================================================================
+# C13: the bounded pool allocator (linearizable bag of slot ids; references = pool slots)
+PRELUDE += """
+fn __verif::dealloc_opt(_1: &OgreArrayPoolAllocator, _2: Option<(&mut u32, u32)>) -> () {
+    let mut _0: ();
+    let mut _3: isize;
+    let mut _4: u32;
+
+    bb0: {
+        _3 = discriminant(_2);
+        switchInt(move _3) -> [0: bb2, otherwise: bb1];
+    }
+
+    bb1: {
+        _4 = copy (((_2 as Some).0: (&mut u32, u32)).1: u32);
+        _0 = @src/ogre_std/ogre_alloc/ogre_array_pool_allocator.rs:dealloc_id(copy _1, copy _4) -> [return: bb2, unwind continue];
+    }
+
+    bb2: {
+        return;
+    }
+}
+
+fn __verif::dealloc_ref_opt(_1: &OgreArrayPoolAllocator, _2: Option<(&mut u32, u32)>) -> () {
+    let mut _0: ();
+    let mut _3: isize;
+    let mut _4: &mut u32;
+    let mut _5: &u32;
+
+    bb0: {
+        _3 = discriminant(_2);
+        switchInt(move _3) -> [0: bb2, otherwise: bb1];
+    }
+
+    bb1: {
+        _4 = copy (((_2 as Some).0: (&mut u32, u32)).0: &mut u32);
+        _5 = &(*_4);
+        _0 = @src/ogre_std/ogre_alloc/ogre_array_pool_allocator.rs:dealloc_ref(copy _1, copy _5) -> [return: bb2, unwind continue];
+    }
+
+    bb2: {
+        return;
+    }
+}
+"""
+
+
+def ex_alloc(v):
+    if 1 in v.payloads:
+        tup = v.payloads[1][0]
+        ref, idv = tup.fields[0], tup.fields[1]
+        refidx = ref.idx if isinstance(ref, Ptr) and ref.idx is not None else BV(64, 0xFFFF)
+        return {"some": v.discr == 1, "id": idv, "refidx": refidx}
+    return {"some": v.discr == 1, "id": BV(32, 0), "refidx": BV(64, 0)}
+
+
+def alloc_query(ctx, name, container, N, owned, threads, slack, timeout_s):
+    """`owned[t]` = number of ids thread t holds at the start (they are 0.., in thread order); the remaining ids are free.
+    thread ops: 'alloc', 'free_own<k>' (dealloc_id of the k-th initially owned id), 'free_last' (dealloc_id of what the thread's
+    most recent alloc returned, skipped if that alloc failed), 'free_last_ref' (same through dealloc_ref)"""
+    consts = {"BUFFER_SIZE": N, "POOL_SIZE": N}
+    types = {"SlotType": "u32", "DataType": "u32", "ContainerType": container}
+    w = World(ctx.index, ctx.type_files, consts, types)
+    origin = w.sym("origin")
+    nown = sum(owned)
+    free_ids = [w.sym("free%d" % i) for i in range(N - nown)]
+    own_ids = [w.sym("own%d" % i) for i in range(nown)]
+    allids = free_ids + own_ids
+    w.pool_allocator("a", (), N, free_ids, origin, container=container)
+    it = w.interp()
+    a = Ptr("a")
+    f_alloc = ctx.index.method("alloc_ref", ctx.type_files["OgreArrayPoolAllocator"], "OgreArrayPoolAllocator")
+    f_dealloc = ctx.index.method("dealloc_id", ctx.type_files["OgreArrayPoolAllocator"], "OgreArrayPoolAllocator")
+    graphs = []; plan = []
+    base = 0
+    for t, prog in enumerate(threads):
+        calls = []; last_alloc = None
+        for j, op in enumerate(prog):
+            if op == "alloc":
+                calls.append((f_alloc, [a], op)); plan.append((t, j, "alloc", None)); last_alloc = j
+            elif op.startswith("free_own"):
+                idt = own_ids[base + int(op[8:])]
+                calls.append((f_dealloc, [a, idt], op)); plan.append((t, j, "free", idt))
+            elif op in ("free_last", "free_last_ref"):
+                jj = last_alloc
+                calls.append((ctx.helper("dealloc_opt" if op == "free_last" else "dealloc_ref_opt"), [a, (lambda res, jj=jj: res[jj])], op)); plan.append((t, j, "free_last", jj))
+            else: raise EncodingError("alloc op " + op)
+        graphs.append(build_thread(it, t, calls, w.mem))
+        base += owned[t]
+    S = sum(g.longest_path() for g in graphs) + slack
+    b = BMC(graphs, w.mem, S, {"real_time_order": True})
+    pre = [z3.ULT(x, BV(32, N)) for x in allids] + [allids[i] != allids[j] for i in range(len(allids)) for j in range(i + 1, len(allids))]
+    res = {}
+    for t in range(len(graphs)):
+        kinds = [p[2] for p in plan if p[0] == t]
+        res[t] = b.results(t, lambda j, v, kinds=kinds: ex_alloc(v) if kinds[j] == "alloc" else {})
+    oplist = []
+    for (t, j, kind, x) in plan:
+        f, l = b.call_times(t)[j]
+        o = {"thread": t, "first": f, "last": l, "kind": kind, "res": res[t][j]}
+        if kind == "free": o["id"] = x
+        if kind == "free_last":
+            o["id"] = res[t][x]["id"]; o["doit"] = res[t][x]["some"]; o["present"] = res[t][x]["some"]
+        oplist.append(o)
+    def bit(idv): return z3.ZeroExt(0, (BV(8, 1) << z3.Extract(7, 0, idv)))
+    def step(free, op):
+        if op["kind"] == "alloc":
+            r = op["res"]
+            has = (free & bit(r["id"])) != 0
+            ok = z3.If(r["some"], z3.And(z3.ULT(r["id"], BV(32, N)), has, r["refidx"] == z3.ZeroExt(32, r["id"])), free == 0)
+            return ok, z3.If(r["some"], free & ~bit(r["id"]), free)
+        if op["kind"] == "free":
+            ok = (free & bit(op["id"])) == 0
+            return ok, free | bit(op["id"])
+        doit = op["doit"]
+        ok = z3.Implies(doit, (free & bit(op["id"])) == 0)
+        return ok, z3.If(doit, free | bit(op["id"]), free)
+    free0 = BV(8, 0)
+    for x in free_ids: free0 = free0 | bit(x)
+    lin, nperm = linearizable(oplist, free0, step)
+    meta = {"threads": ["%d:%s (owns %d)" % (i, "+".join(p), owned[i]) for i, p in enumerate(threads)], "oracle": "linearizable bag of slot ids (an id is returned only while free; None only when no id is free; reference index == id)",
+            "bounds": "OgreArrayPoolAllocator<u32, %s<u32,%d>, %d>, %d ids initially owned, free-list order and sequence origin symbolic, steps<=%d" % (container, N, N, nown, b.S),
+            "interleavings_of_spec": nperm}
+    violation = pre + [z3.Or(z3.And(b.all_done(), z3.Not(lin)), b.any_panic(), b.err[b.S])]
+    witness = pre + [b.all_done()]
+    meta["functions"] = sorted(set(x.split(">::")[-1] + " @" + (re.search(r"impl at (src/[^:]*)", x).group(1) if "impl at" in x else "") for x in it.functions_used))
+    meta["intrinsics"] = sorted(it.intrinsics_used)
+    rec, model = solve(name, b, violation, witness, timeout_s, ctx.workdir, meta)
+    if model is not None:
+        import replay
+        rec["trace"] = b.decode_schedule(model)
+        inp = {nm: model.eval(v, model_completion=True).as_long() for nm, v in w.inputs.items()}
+        rec["inputs"] = inp
+        rec["results"] = {"%d.%d" % (t, j): {kx: str(model.eval(vx, model_completion=True)) for kx, vx in res[t][j].items()} for t in res for j in range(len(res[t]))}
+        # native replay: the pool is created fresh (free list 0..N-1 in order) at the model's origin; the initially owned ids are
+        # allocated sequentially before the threads start, so the concrete id values may differ from the model's -- the symptom does not depend on them
+        progs = []; base = 0
+        for t, prog in enumerate(threads):
+            p2 = []; last_alloc = None
+            for j, op in enumerate(prog):
+                if op == "alloc": p2.append("alloc"); last_alloc = j
+                elif op.startswith("free_own"): p2.append("dealloc:%d" % (base + int(op[8:])))
+                elif op == "free_last": p2.append("dealloc:r%d" % last_alloc)
+                else: p2.append("dealloc_ref:r%d" % last_alloc)
+            progs.append(p2); base += owned[t]
+        segs = replay.segments_from_trace(rec["trace"])
+        def symptom(h):
+            if h["panics"]: return "panic: " + h["panics"][0]
+            if h["stuck"] or h["timeout"]: return None
+            ev = sorted(h["events"], key=lambda e: (e["first"], e["last"]))
+            by_t = {}
+            for e in h["events"]: by_t.setdefault(e["thread"], []).append(e)
+            for tt in by_t: by_t[tt].sort(key=lambda e: e["call"])
+            def rec_(pos, free):
+                if all(pos[t] == len(by_t[t]) for t in by_t): return True
+                for t in by_t:
+                    if pos[t] == len(by_t[t]): continue
+                    e = by_t[t][pos[t]]
+                    if any(pos[u] < len(by_t[u]) and by_t[u][pos[u]]["last"] < e["first"] for u in by_t if u != t): continue
+                    f2 = set(free)
+                    if e["op"] == "alloc":
+                        if e["res"][0] == "some":
+                            i = int(e["res"][1])
+                            if i not in f2: continue
+                            f2.discard(i)
+                        elif f2: continue
+                    else:
+                        if e["res"][0] == "done":
+                            if e["arg"] in f2: continue
+                            f2.add(e["arg"])
+                    p2 = dict(pos); p2[t] += 1
+                    if rec_(p2, f2): return True
+                return False
+            if rec_({t: 0 for t in by_t}, set(range(nown, N))): return None
+            return "allocator history is not explainable by a bag of slot ids: " + "; ".join("t%d %s(%s)->%s [%d,%d]" % (e["thread"], e["op"], e["arg"], " ".join(e["res"]), e["first"], e["last"]) for e in ev)
+        kindname = "PoolAtomic" if container == "AtomicMove" else "PoolFullSync"
+        found, why, tried = replay.search(kindname, N, [inp["origin"]], list(range(nown)), progs, [], segs, symptom)
+        rec["native_runs"] = tried
+        if found: rec.update(verdict="violation", symptom=found["symptom"], replayed=True, native_history=found["history"]["events"], native_segments=found["segments"])
+        else: rec.update(verdict="inconclusive", why="model counterexample did not reproduce natively: " + why)
+    return rec
+
+
+def _c13_registry(add, tier, TO):
+    def q(name, qtier, container, N, owned, threads, slack=3):
+        add("C13", name, qtier, lambda ctx: alloc_query(ctx, name, container, N, owned, threads, slack, TO))
+    q("c13_atomic_n2_a_vs_afa", "quick", "AtomicMove", 2, [0, 0], [["alloc"], ["alloc", "free_last", "alloc"]])
+    q("c13_atomic_n2_exhaust", "quick", "AtomicMove", 2, [1, 0, 0], [["free_own0"], ["alloc"], ["alloc"]])
+    q("c13_atomic_n2_refs", "quick", "AtomicMove", 2, [0, 1], [["alloc", "free_last_ref"], ["free_own0", "alloc"]])
+    q("c13_fullsync_n2_a_vs_afa", "quick", "FullSyncMove", 2, [0, 0], [["alloc"], ["alloc", "free_last", "alloc"]])
+    q("c13_atomic_n4_3thr", "thorough", "AtomicMove", 4, [1, 1, 0], [["free_own0", "alloc"], ["alloc", "free_own0"], ["alloc", "free_last"]])
+    q("c13_fullsync_n2_exhaust", "thorough", "FullSyncMove", 2, [1, 0, 0], [["free_own0"], ["alloc"], ["alloc"]])
+    q("c13_atomic_n2_2x_afa", "thorough", "AtomicMove", 2, [0, 0], [["alloc", "free_last", "alloc"], ["alloc", "free_last", "alloc"]], 2)
+
+
+
+
+# =========================================================================================================
+# C14: OgreArc handles (reference counting over one pooled value)
+PRELUDE += """
+fn __verif::arc_clone_drop(_1: &OgreArc) -> () {
+    let mut _0: ();
+    let mut _2: OgreArc;
+    let mut _3: &mut OgreArc;
+
+    bb0: {
+        _2 = @src/ogre_std/ogre_alloc/ogre_arc.rs:clone(copy _1) -> [return: bb1, unwind continue];
+    }
+
+    bb1: {
+        _3 = &mut _2;
+        _0 = @src/ogre_std/ogre_alloc/ogre_arc.rs:drop(move _3) -> [return: bb2, unwind continue];
+    }
+
+    bb2: {
+        return;
+    }
+}
+
+fn __verif::arc_inc_rawcopy_drop(_1: &OgreArc) -> () {
+    let mut _0: ();
+    let mut _2: OgreArc;
+    let mut _3: &mut OgreArc;
+    let mut _4: &OgreArc;
+
+    bb0: {
+        _4 = @src/ogre_std/ogre_alloc/ogre_arc.rs:increment_references(copy _1, const 1_u32) -> [return: bb1, unwind continue];
+    }
+
+    bb1: {
+        _2 = @src/ogre_std/ogre_alloc/ogre_arc.rs:raw_copy(copy _1) -> [return: bb2, unwind continue];
+    }
+
+    bb2: {
+        _3 = &mut _2;
+        _0 = @src/ogre_std/ogre_alloc/ogre_arc.rs:drop(move _3) -> [return: bb3, unwind continue];
+    }
+
+    bb3: {
+        return;
+    }
+}
+
+fn __verif::arc_read(_1: &OgreArc) -> u32 {
+    let mut _0: u32;
+    let mut _2: &u32;
+
+    bb0: {
+        _2 = @src/ogre_std/ogre_alloc/ogre_arc.rs:deref(copy _1) -> [return: bb1, unwind continue];
+    }
+
+    bb1: {
+        _0 = copy (*_2);
+        return;
+    }
+}
+"""
+
+
+def arc_query(ctx, name, container, N, threads, slack, timeout_s):
+    """every thread starts with ONE handle to the same value (reference count = number of threads).
+    ops: 'drop' (its handle; must be the thread's last op), 'clone_drop', 'inc_rawcopy_drop', 'read', 'count'.
+    A final thread (after all) allocates N+1 times to observe whether the slot went back to the pool."""
+    consts = {"BUFFER_SIZE": N, "POOL_SIZE": N}
+    types = {"SlotType": "u32", "DataType": "u32", "ContainerType": container, "OgreAllocatorType": "OgreArrayPoolAllocator"}
+    w = World(ctx.index, ctx.type_files, consts, types)
+    origin = w.sym("origin"); d = w.sym("slot"); V = w.sym("value")
+    free_ids = [w.sym("free%d" % i) for i in range(N - 1)]
+    pool = [z3.If(d == j, V, BV(32, POISON + 0x100 + j)) for j in range(N)]
+    w.pool_allocator("a", (), N, free_ids, origin, container=container, pool_init=pool)
+    fi = {nm: i for i, nm in enumerate(layout.struct_fields(ctx.type_files["InnerOgreArc"], "InnerOgreArc"))}
+    T = len(threads)
+    w.decl("in0", (fi["allocator"],), "frozen", None, value=Ptr("a"))
+    w.decl("in0", (fi["data_id"],), "frozen", None, value=d)
+    w.decl("in0", (fi["references_count"],), "atomic", z3.BitVecSort(32), BV(32, T))
+    for t in range(T): w.decl("h%d" % t, (0,), "frozen", None, value=Ptr("in0"))
+    it = w.interp()
+    F = lambda m: ctx.index.method(m, ctx.type_files["OgreArc"])
+    f_drop = ctx.index.method("drop", ctx.type_files["OgreArc"], "&mut OgreArc")
+    f_count = F("references_count")
+    graphs = []; plan = []
+    for t, prog in enumerate(threads):
+        h = Ptr("h%d" % t); calls = []
+        for j, op in enumerate(prog):
+            if op == "drop": calls.append((f_drop, [h], op))
+            elif op == "clone_drop": calls.append((ctx.helper("arc_clone_drop"), [h], op))
+            elif op == "inc_rawcopy_drop": calls.append((ctx.helper("arc_inc_rawcopy_drop"), [h], op))
+            elif op == "read": calls.append((ctx.helper("arc_read"), [h], op))
+            elif op == "count": calls.append((f_count, [h], op))
+            else: raise EncodingError("arc op " + op)
+            plan.append((t, j, op))
+        graphs.append(build_thread(it, t, calls, w.mem))
+    f_alloc = ctx.index.method("alloc_ref", ctx.type_files["OgreArrayPoolAllocator"], "OgreArrayPoolAllocator")
+    graphs.append(build_thread(it, T, [(f_alloc, [Ptr("a")], "alloc")] * (N + 1), w.mem))
+    S = sum(g.longest_path() for g in graphs) + slack
+    b = BMC(graphs, w.mem, S, {"after_all": {T: True}, "heap_roots": ["in0"]})
+    S = b.S
+    allids = free_ids + [d]
+    pre = [z3.ULT(x, BV(32, N)) for x in allids] + [allids[i] != allids[j] for i in range(len(allids)) for j in range(i + 1, len(allids))]
+    pre += [z3.ULT(V, BV(32, POISON)), z3.UGE(V, BV(32, 0x1000))]
+    res = {}
+    for t in range(T):
+        ops = [p[2] for p in plan if p[0] == t]
+        res[t] = b.results(t, lambda j, v, ops=ops: {"val": v} if ops[j] in ("read", "count") else {})
+    allocs = b.results(T, lambda j, v: ex_alloc(v))
+    dropped_all = all(prog and prog[-1] == "drop" for prog in threads)
+    live = sum(1 for prog in threads if not (prog and prog[-1] == "drop"))
+    good = []
+    for (t, j, op) in plan:
+        if op == "read": good.append(res[t][j]["val"] == V)                       # a live handle always dereferences to the value written at creation
+    got_d = z3.Or([z3.And(x["some"], x["id"] == d) for x in allocs])
+    n_some = sum([z3.If(x["some"], BV(8, 1), BV(8, 0)) for x in allocs], BV(8, 0))
+    ids_distinct = z3.And([z3.Not(z3.And(allocs[i]["some"], allocs[j]["some"], allocs[i]["id"] == allocs[j]["id"])) for i in range(len(allocs)) for j in range(i + 1, len(allocs))])
+    refcount_final = b.memv[S][("in0", (fi["references_count"],))]
+    if dropped_all:
+        good += [z3.Not(b.alive[S]["in0"]), b.freed_count[S]["in0"] == 1, got_d, n_some == N, ids_distinct]
+    else:
+        good += [b.alive[S]["in0"], z3.Not(got_d), n_some == N - 1, ids_distinct, refcount_final == live]
+    meta = {"threads": ["%d:%s" % (i, "+".join(p)) for i, p in enumerate(threads)] + ["alloc x%d (runs after all)" % (N + 1)],
+            "oracle": "value destroyed and slot returned exactly when the last handle is dropped (control block freed once, slot allocatable again exactly once), never while a handle lives; reads see the original value; final count == live handles; no access to a freed control block",
+            "bounds": "OgreArc over OgreArrayPoolAllocator<u32,%s<u32,%d>,%d>; %d handles on %d threads; steps<=%d" % (container, N, N, T, T, S)}
+    violation = pre + [z3.Or(z3.And(b.all_done(), z3.Not(z3.And(good))), b.any_panic(), b.err[S])]
+    witness = pre + [b.all_done()]
+    meta["functions"] = sorted(set(x.split(">::")[-1] + " @" + (re.search(r"impl at (src/[^:]*)", x).group(1) if "impl at" in x else "") for x in it.functions_used))
+    meta["intrinsics"] = sorted(it.intrinsics_used)
+    rec, model = solve(name, b, violation, witness, timeout_s, ctx.workdir, meta)
+    if model is not None:
+        import replay
+        rec["trace"] = b.decode_schedule(model)
+        inp = {nm: model.eval(v, model_completion=True).as_long() for nm, v in w.inputs.items()}
+        rec["inputs"] = inp
+        rec["model_final"] = {"alive": str(model.eval(b.alive[S]["in0"], model_completion=True)), "refcount": str(model.eval(refcount_final, model_completion=True)),
+                              "err": str(model.eval(b.err[S], model_completion=True)), "allocs": [{k: str(model.eval(v, model_completion=True)) for k, v in x.items()} for x in allocs]}
+        segs = replay.segments_from_trace(rec["trace"], skip_threads=(T,))
+        def symptom(h):
+            if h["panics"]: return "panic: " + h["panics"][0]
+            if h["stuck"] or h["timeout"]: return None
+            reads = [e for e in h["events"] if e["op"] == "read"]
+            for e in reads:
+                if e["res"][:2] != ["val", str(inp["value"])]: return "a live handle dereferenced to %s instead of the value written at creation (%d)" % (" ".join(e["res"]), inp["value"])
+            al = [e for e in h["events"] if e["op"] == "alloc"]
+            some = [int(e["res"][1]) for e in al if e["res"][0] == "some"]
+            if len(set(some)) != len(some): return "the pool handed out the same slot twice: %s" % some
+            if dropped_all and len(some) != N: return "all handles were dropped but only %d of %d slots are allocatable: the value's slot was never returned" % (len(some), N)
+            if not dropped_all and len(some) != N - 1: return "a handle is still alive but %d slots are allocatable: its slot was returned to the pool" % len(some)
+            cnt = [e for e in h["events"] if e["op"] == "final_count"]
+            return None
+        progs = [list(p) for p in threads]
+        found, why, tried = replay.search("OgreArc" + ("Atomic" if container == "AtomicMove" else "FullSync"), N, [inp["origin"]], [inp["value"]], progs, ["alloc"] * (N + 1), segs, symptom)
+        rec["native_runs"] = tried
+        if found: rec.update(verdict="violation", symptom=found["symptom"], replayed=True, native_history=found["history"]["events"], native_segments=found["segments"])
+        else: rec.update(verdict="inconclusive", why="model counterexample (final state: %s) did not reproduce natively: %s" % (rec["model_final"], why))
+    return rec
+
+
+def _c14_registry(add, tier, TO):
+    def q(name, qtier, container, N, threads, slack=3):
+        add("C14", name, qtier, lambda ctx: arc_query(ctx, name, container, N, threads, slack, TO))
+    q("c14_last_two_drops", "quick", "AtomicMove", 2, [["read", "drop"], ["read", "drop"]])
+    q("c14_clone_vs_final_drop", "quick", "AtomicMove", 2, [["clone_drop", "read"], ["drop"]])
+    q("c14_bulk_increment_vs_drop", "quick", "AtomicMove", 2, [["inc_rawcopy_drop", "drop"], ["clone_drop", "drop"]])
+    q("c14_three_threads", "thorough", "AtomicMove", 2, [["clone_drop", "drop"], ["read", "drop"], ["inc_rawcopy_drop", "drop"]])
+    q("c14_fullsync_last_two_drops", "thorough", "FullSyncMove", 2, [["clone_drop", "drop"], ["read", "drop"]])
+    q("c14_keep_one", "thorough", "AtomicMove", 2, [["clone_drop", "count"], ["inc_rawcopy_drop", "drop"]])
+
+
+EXTRA_REGISTRIES = [("C13", _c13_registry), ("C14", _c14_registry)]
